@@ -208,9 +208,15 @@ class Ctx:
 
     def loop_contract(self, node):
         k = self.loop_nodes.get(id(node))
-        if k is None:
+        if k is None or self.contract_node_id != self.current_fn_id():
             return None
+        per = self.contract.options.get("loop_invariants", {}).get(self.instance)
+        if per is not None:
+            return per.get(k)
         return self.contract.loops.get(k)
+
+    def current_fn_id(self):
+        return self.contract_node_id
 
     def loop_name(self, node):
         return f"inv{self.loop_nodes.get(id(node), '?')}"
@@ -369,6 +375,8 @@ def verify_contract(prop, contract, registry=None, options=None):
         ctx = Ctx(prop, contract, registry or {}, {**contract.options, **(options or {})})
         ctx.prefix = f"{prop}.{contract.short}" + (f"[{label}]" if label else "")
         ctx.loop_nodes = number_loops(node)
+        ctx.contract_node_id = id(node)
+        ctx.instance = label
         interp = Interp(ctx)
         ctx.interp = interp
         lib.CUR_INTERP[0] = interp
@@ -380,6 +388,10 @@ def verify_contract(prop, contract, registry=None, options=None):
         try:
             args = params(mk)
             ctx.args = args
+            for k_, v_ in args.items():
+                if k_ not in mk.obs and (v_ is None or isinstance(v_, (int, str, bool, Fraction))):
+                    mk.obs[k_] = ("const", v_)
+            mk.obs["__argnames__"] = ("const", list(args))
             a0 = NS({k: wrap(ctx, interp, st, v) for k, v in args.items()})
             for req in contract.requires:
                 lab, fn = req[0], req[1]
@@ -468,7 +480,10 @@ def _extract_model(m, obs):
         if kind in ("int", "real", "bool"):
             out[name] = _model_value(m, d[1])
         elif kind == "const":
-            out[name] = d[1] if isinstance(d[1], (int, str, bool, type(None))) else str(d[1])
+            v = d[1]
+            if isinstance(v, Fraction):
+                v = [v.numerator, v.denominator]
+            out[name] = v if isinstance(v, (int, str, bool, type(None), list)) else str(v)
         elif kind == "carray":
             out[name] = [_model_value(m, c) for c in d[1]]
         elif kind == "array":
@@ -492,41 +507,71 @@ def _extract_model(m, obs):
     return out
 
 
+def _z3_check(fs, timeout_ms):
+    s = z3.Solver()
+    s.set("timeout", int(timeout_ms))
+    s.add(*fs)
+    r = s.check()
+    return r, s
+
+
 def _solve_one(args):
+    """Strategy: z3 (short budget) -> z3 with the Pythagorean instances (if trig occurs) ->
+    z3 on the nonlinear abstraction (sound for unsat) -> z3 full budget -> cvc5.
+    `refuted` needs a model of the *un-abstracted* formulas."""
     idx, timeout_ms = args
     ob, obs = _OBLS[idx]
     t0 = time.time()
     attempts = []
-    for variant in ("plain", "trig"):
-        try:
-            fs = ob.formulas(extra_trig=(variant == "trig"))
-        except Exception as e:
-            return (idx, "undecided", "none", time.time() - t0, None, f"encoding error: {e}")
-        s = z3.Solver()
-        s.set("timeout", timeout_ms)
-        s.add(*fs)
-        r = s.check()
-        attempts.append(f"z3[{variant}]={r}")
-        if r == z3.unsat:
-            return (idx, "discharged", "z3", time.time() - t0, None, " ".join(attempts))
-        if r == z3.sat:
-            model = _extract_model(s.model(), obs)
-            # a model found without the Pythagorean instances may be spurious for trig goals;
-            # retry with them before reporting
-            if variant == "plain" and _has_trig(fs):
-                first = model
-                continue
-            return (idx, "refuted", "z3", time.time() - t0, model, " ".join(attempts))
-    # cvc5 for what z3 left open
+    model = None
     try:
-        r2 = _cvc5_check(fs, timeout_ms)
-        attempts.append(f"cvc5={r2}")
-        if r2 == "unsat":
+        fs = ob.formulas(extra_trig=False)
+    except Exception as e:
+        return (idx, "undecided", "none", time.time() - t0, None, f"encoding error: {type(e).__name__}: {e}")
+    trig = _has_trig(fs)
+    short = min(5000, timeout_ms)
+    r, s = _z3_check(fs, short)
+    attempts.append(f"z3={r}")
+    if r == z3.unsat:
+        return (idx, "discharged", "z3", time.time() - t0, None, " ".join(attempts))
+    if r == z3.sat:
+        model = _extract_model(s.model(), obs)
+        if not trig:
+            return (idx, "refuted", "z3", time.time() - t0, model, " ".join(attempts))
+    if trig:
+        fst = ob.formulas(extra_trig=True)
+        r2, s2 = _z3_check(fst, timeout_ms)
+        attempts.append(f"z3[trig]={r2}")
+        if r2 == z3.unsat:
+            return (idx, "discharged", "z3", time.time() - t0, None, " ".join(attempts))
+        if r2 == z3.sat:
+            return (idx, "refuted", "z3", time.time() - t0, _extract_model(s2.model(), obs), " ".join(attempts))
+        fs = fst
+    if model is None:
+        try:
+            fa = T.abstract_nonlinear(fs)
+            r3, _ = _z3_check(fa, timeout_ms)
+            attempts.append(f"z3[nl-abstraction]={r3}")
+            if r3 == z3.unsat:
+                return (idx, "discharged", "z3+nl-abstraction", time.time() - t0, None, " ".join(attempts))
+        except Exception as e:
+            attempts.append(f"nl-abstraction-error={type(e).__name__}:{e}")
+        if timeout_ms > short:
+            r4, s4 = _z3_check(fs, timeout_ms)
+            attempts.append(f"z3[full]={r4}")
+            if r4 == z3.unsat:
+                return (idx, "discharged", "z3", time.time() - t0, None, " ".join(attempts))
+            if r4 == z3.sat:
+                return (idx, "refuted", "z3", time.time() - t0, _extract_model(s4.model(), obs), " ".join(attempts))
+    try:
+        r5 = _cvc5_check(fs, timeout_ms)
+        attempts.append(f"cvc5={r5}")
+        if r5 == "unsat":
             return (idx, "discharged", "cvc5", time.time() - t0, None, " ".join(attempts))
     except Exception as e:
         attempts.append(f"cvc5-error={type(e).__name__}")
-    if "first" in locals():
-        return (idx, "refuted", "z3", time.time() - t0, first, " ".join(attempts))
+    if model is not None:
+        return (idx, "refuted", "z3", time.time() - t0, model, " ".join(attempts))
     return (idx, "undecided", "none", time.time() - t0, None, " ".join(attempts))
 
 
